@@ -206,7 +206,9 @@ def check_secrets(ctx: Ctx, inp) -> None:
 
 # ---- configuration histories through the Python API -------------------------------------------------------------
 
-API_NAMES = ["X-Tenant-Id", "customer_ref", "X-Org-Id", "page", "X-Api-Key", "Authorization", "trace", "Shop-Ref", "x-tenant-id", "PAGE"]
+API_NAMES = ["X-Tenant-Id", "customer_ref", "X-Org-Id", "page", "X-Api-Key", "Authorization", "trace", "Shop-Ref", "x-tenant-id", "PAGE",
+             # built-in keys that no marker covers, in their documented spellings
+             "_csrf", "_xsrf", "ip_address", "mysql_pwd", "remote_addr", "x_real_ip", "connect.sid", "PHPSESSID"]
 API_KEYS = ["x-tenant-id", "Customer_Ref", "X-ORG-ID", "page", "trace", "shop-ref"]
 API_MARKERS = ["tenant", "ref", "org", "pag", "Trace"]
 
@@ -237,7 +239,8 @@ def check_api_history(ctx: Ctx, inp) -> None:
     import schemathesis
     from schemathesis.core.output import sanitization as sz
 
-    sz.configure(replacement=sz.DEFAULT_REPLACEMENT, keys_to_sanitize=list(sz.DEFAULT_KEYS_TO_SANITIZE), sensitive_markers=list(sz.DEFAULT_SENSITIVE_MARKERS))
+    # what a fresh process starts with (resetting through configure() would route the defaults through the code under test)
+    sz._DEFAULT_SANITIZATION_CONFIG = sz.SanitizationConfig()
     keys, markers, replacement = set(sz.DEFAULT_KEYS_TO_SANITIZE), set(sz.DEFAULT_SENSITIVE_MARKERS), sz.DEFAULT_REPLACEMENT
     schema = schemathesis.openapi.from_dict({"openapi": "3.0.2", "info": {"title": "t", "version": "1"}, "paths": {"/items": {"get": {"responses": {"200": {"description": "ok"}}}}}})
     schema.base_url = "http://127.0.0.1:1/api"
@@ -326,7 +329,7 @@ def check_api_history(ctx: Ctx, inp) -> None:
             if any(sensitive.values()) and replacement not in text and quote(replacement) not in text and quote(replacement, safe="").replace("%20", "+") not in text:
                 ctx.disagree(f"api:replacement-marker-missing:{route}", f"step {n}: configured replacement {replacement!r} not in {text[:300]}", input=inp)
     finally:
-        sz.configure(replacement=sz.DEFAULT_REPLACEMENT, keys_to_sanitize=list(sz.DEFAULT_KEYS_TO_SANITIZE), sensitive_markers=list(sz.DEFAULT_SENSITIVE_MARKERS))
+        sz._DEFAULT_SANITIZATION_CONFIG = sz.SanitizationConfig()
 
 
 # ---- sanitize_url on its own: URLs as users write them ----------------------------------------------------------
@@ -373,7 +376,7 @@ def check_url(ctx: Ctx, inp) -> None:
 
     from schemathesis.core.output import sanitization as sz
 
-    sz.configure(replacement=sz.DEFAULT_REPLACEMENT, keys_to_sanitize=list(sz.DEFAULT_KEYS_TO_SANITIZE), sensitive_markers=list(sz.DEFAULT_SENSITIVE_MARKERS))
+    sz._DEFAULT_SANITIZATION_CONFIG = sz.SanitizationConfig()  # what a fresh process starts with
     netloc = inp["host"]
     if inp["userinfo"] == "user-only":
         netloc = f"{quote(inp['user'], safe='')}@{netloc}"
